@@ -360,10 +360,24 @@ def explore_shard(args):
         cons.append(z3.Sum([z3.If(x != 0, 1, 0) for x in sv.values()]) <= args['max_self'])
     if args.get('max_total') is not None:
         cons.append(z3.Sum([z3.If(x != 0, 1, 0) for x in list(ev.values()) + list(sv.values())]) <= args['max_total'])
+    if args.get('acyclic_only'):
+        # "the dependency relation is acyclic" as a constraint: there is a position for every job such that every
+        # dependency points backwards (pos_* are existential: the program never reads them)
+        pos = [z3.Int(f'pos_{j}') for j in range(N)]
+        cons += [z3.And(p >= 0, p < N) for p in pos]
+        cons += [z3.Implies(x != 0, pos[i] < pos[j]) for (i, j), x in ev.items()]
+        cons += [x == 0 for x in sv.values()]
+    if args.get('fixed_flavour') is not None:
+        cons += [z3.Int(f'fl_{j}') == args['fixed_flavour'] for j in range(N)]
     for name, val in args.get('fix', {}).items():
         cons.append(z3.Int(name) == val)
+    if args.get('deadline_at') and time.time() > args['deadline_at']:
+        return {'fix': args.get('fix', {}), 'paths': 0, 'cyclic_paths': 0, 'dag_paths': 0, 'queries': 0, 'twins_sat': 0,
+                'violations': [], 'unknown': 0, 'rejected_at_build': 0, 'rejection_example': None, 'samples': [],
+                'part_counts': {}, 'symbolic_parts': 0, 'complete': False, 'exhaustive': 'unknown', 'solver_calls': 0,
+                'forks': 0, 'secs': 0.0}
     ex = shapesym.Explorer(cons, max_paths=args.get('max_paths', 2000000),
-                           deadline=(t0 + args['deadline_s']) if args.get('deadline_s') else None)
+                           deadline=args.get('deadline_at') or ((t0 + args['deadline_s']) if args.get('deadline_s') else None))
     inputs_holder = {}
     ar = [z3.Bool(f'ar_{j}') for j in range(N)]
     fail = [z3.Bool(f'fail_{j}') for j in range(N)]
